@@ -36,6 +36,11 @@ let handle cmd =
     str_cost (dtw_model u s1 s2)
   | "wps" -> let u = rd_usettings () in let s1 = rd_series () in let s2 = rd_series () in
     str_matrix (wps_matrix u s1 s2)
+  | "bp" -> let u = rd_usettings () in let s1 = rd_series () in let s2 = rd_series () in
+    let i = nint () in let j = nint () in
+    let m = wps_matrix u s1 s2 in
+    let p = best_path_model m (adj_penalty u) (nat_of_int i) (nat_of_int j) in
+    String.concat " " (List.map (fun (a, b) -> string_of_int (int_of_nat a) ^ "," ^ string_of_int (int_of_nat b)) p)
   | "ed" -> let inner = if nint () = 0 then SqEuclid else AbsDiff in
     let s1 = rd_series () in let s2 = rd_series () in
     string_of_int (int_of_z (ed_model inner s1 s2))
